@@ -669,6 +669,107 @@ def text_shapes_stream(ctx, res):
                     res.violate("C02:reload-differs:text", "a string a string field accepts does not come back from a save and reload", dict(case, got=repr(got)[:200]))
 
 
+def options_and_files_stream(ctx, res):
+    """(a) format options that name something the configuration itself contains (YAML root key = a top-level section or field, XML root
+    tag = a key): saving and loading with the same option reproduces the configuration; (b) the FILE route — `save(path)` then
+    `load(path)` into a fresh configuration — for values whose encoded bytes contain a carriage return / line feed pair (text with CR LF,
+    the integers 2573 and 3338, byte strings) in every format; (c) key files whose 32 bytes end in a line feed or carriage return,
+    and secrets of several kilobytes (a PEM key, a certificate chain)"""
+    import cincoconfig as cc
+    tmp = ctx.tmpdir()
+    n = [0]
+
+    def make():
+        s = cc.Schema()
+        s.mode = cc.StringField(default="production")
+        s.server.host = cc.StringField(default="localhost")
+        s.server.port = cc.IntField(default=443)
+        s.server.server = cc.IntField(default=1)
+        s.workers = cc.IntField(default=7)
+        s.config.depth = cc.IntField(default=2)
+        return s
+    # (a)
+    for fmt, optname, values in (("yaml", "root_key", ["server", "mode", "workers", "config", "CONFIG", "APP"]), ("xml", "root_tag", ["server", "mode", "config", "host"])):
+        for v in values:
+            s = make()
+            cfg = s()
+            cfg.mode = "debug"
+            cfg.server.host = "example.org"
+            cfg.workers = 3
+            opts = {optname: v}
+            case = {"stream": "format-options", "fmt": fmt, "option": optname, "value": v}
+            res.case(stable(case), kind="format-options:" + fmt)
+            fresh = s()
+            try:
+                fresh.loads(cfg.dumps(format=fmt, **opts), format=fmt, **opts)
+                got = fresh.to_tree()
+            except Exception as e:  # noqa
+                got = "raised %s: %s" % (type(e).__name__, str(e)[:80])
+            if got != cfg.to_tree():
+                res.violate("C02:reload-differs:format-option", "saving and loading with a format option that names a key of the configuration does not reproduce it",
+                            dict(case, got=repr(got)[:300]))
+    # (b)
+    for fmt in FORMATS:
+        s = cc.Schema()
+        s.banner = cc.StringField(default="b")
+        s.retry_ms = cc.IntField(default=0)
+        s.other = cc.IntField(default=0)
+        s.blob = cc.BytesField(default=b"")
+        s.sub.lines = cc.ListField(cc.StringField(), default=lambda: [])
+        s.sub.codes = cc.ListField(cc.IntField(), default=lambda: [])
+        for label, fill in (("text with CR LF", lambda c: (setattr(c, "banner", "first\r\nsecond"), setattr(c.sub, "lines", ["a\r\nb", "\r\n"]))),
+                            ("integers 2573 / 3338", lambda c: (setattr(c, "retry_ms", 2573), setattr(c, "other", 3338), setattr(c.sub, "codes", [2573, 168626701]))),
+                            ("bytes with CR LF", lambda c: setattr(c, "blob", b"\x00\r\n\xff\r\n")), ("plain", lambda c: setattr(c, "banner", "plain"))):
+            if fmt == "xml" and label == "text with CR LF":
+                continue                                    # XML normalises line ends in text: outside the format's domain (C04)
+            n[0] += 1
+            dest = os.path.join(tmp, "of-%d.%s" % (n[0], fmt))
+            cfg = s()
+            fill(cfg)
+            case = {"stream": "file-route", "fmt": fmt, "values": label}
+            res.case(stable(case), kind="file-route:" + fmt)
+            fresh = s()
+            try:
+                cfg.save(dest, format=fmt)
+                fresh.load(dest, format=fmt)
+                got = fresh.to_tree()
+            except Exception as e:  # noqa
+                got = "raised %s: %s" % (type(e).__name__, str(e)[:80])
+            if got != cfg.to_tree():
+                res.violate("C02:reload-differs:file-route", "a file written by save() does not load back with load() (the same configuration does through dumps / loads)",
+                            dict(case, got=repr(got)[:300]))
+    # (c)
+    s = cc.Schema()
+    s.api_key = cc.SecureField(method="aes")
+    s.sub.token = cc.SecureField(method="xor")
+    for kname, key in (("ends in LF", bytes(range(1, 32)) + b"\n"), ("ends in CR", bytes(range(1, 32)) + b"\r"), ("ends in CR LF", bytes(range(1, 31)) + b"\r\n"), ("begins with LF", b"\n" + bytes(range(1, 32))),
+                       ("blanks", b" " * 32), ("ordinary", bytes(range(100, 132)))):
+        for size in (8, 3500, 9000):
+            n[0] += 1
+            kp = os.path.join(tmp, "ofk-%d.key" % n[0])
+            with open(kp, "wb") as fp:
+                fp.write(key)
+            secret = ("-----BEGIN KEY-----" + "Ab9+/" * (size // 5))[:size]
+            cfg = s(key_filename=kp)
+            cfg.api_key = secret
+            cfg.sub.token = secret[::-1]
+            for fmt in FORMATS:
+                case = {"stream": "keys-and-long-secrets", "key_file": kname, "secret_bytes": size, "fmt": fmt}
+                res.case(stable(case), kind="keys-and-long-secrets:" + fmt)
+                fresh = s(key_filename=kp)
+                try:
+                    fresh.loads(cfg.dumps(format=fmt), format=fmt)
+                    again = s(key_filename=kp)
+                    again.loads(cfg.dumps(format=fmt), format=fmt)            # a second save of the same configuration loads as well
+                    got = [fresh.api_key == secret, fresh.sub.token == secret[::-1], again.api_key == secret]
+                except Exception as e:  # noqa
+                    got = "raised %s: %s" % (type(e).__name__, str(e)[:80])
+                if got != [True, True, True] or open(kp, "rb").read() != key:
+                    res.violate("C02:reload-differs:key-or-length", "a secret does not come back from a save and reload with the same key file (a key file ending in a line "
+                                "break, or a secret of several kilobytes), or the key file was modified", dict(case, got=got))
+                    break
+
+
 def equal_other_type_stream(ctx, res):
     """untyped fields that DECLARE a default, holding a value that is `==` the default but of another type (True / 1, 0 / False, 2 / 2.0,
     lists and maps of such): the saved value comes back, not the default it compares equal to — at the root, nested and in list items"""
@@ -729,8 +830,9 @@ def run(ctx, n_quick=400, n_thorough=6000):
     guard(res, "C02", untyped_values_stream, ctx, res)
     guard(res, "C02", equal_other_type_stream, ctx, res)
     guard(res, "C02", text_shapes_stream, ctx, res)
-    P.run_stream(ctx, res, "C02", ctx.n(n_quick, n_thorough), oracle, gen_ops=gen_ops, ops_len=(3, 10),
-                 schema_opts={"virtual": True}, label="save-reload")
+    guard(res, "C02", options_and_files_stream, ctx, res)
+    guard(res, "C02", lambda: P.run_stream(ctx, res, "C02", ctx.n(n_quick, n_thorough), oracle, gen_ops=gen_ops, ops_len=(3, 10),
+                 schema_opts={"virtual": True}, label="save-reload"))
     replies = ctx.model([r for _, _, r in PENDING])
     if replies is not None:
         for (case, impl2), r in zip([(c, i) for c, i, _ in PENDING], replies):
